@@ -100,6 +100,13 @@ static std::vector<Whole> c10_wholes() {
         bytes spk = ref::unhex("a914"); bytes h = ref::hash160(redeem); spk.insert(spk.end(), h.begin(), h.end()); spk.push_back(0x87);
         W.push_back({"P2SH: scriptSig <redeem>, redeem nop*" + std::to_string(k3) + " 1", ref::SigVer::BASE, ref::F_P2SH, sig, spk, {}});
     }
+    // BIP342: a tapscript's initial stack may hold at most 1000 items (checked before anything executes); legacy / v0 scripts have no such
+    // initial check - there the combined limit applies after each operation only
+    for (auto sv : {ref::SigVer::BASE, ref::SigVer::WITNESS_V0, ref::SigVer::TAPSCRIPT}) for (size_t n : {999, 1000, 1001, 1002}) {
+        std::vector<bytes> st(n, bytes{0x01});
+        W.push_back({"initial stack of " + std::to_string(n) + " items, script DROP DROP", sv, 0, ref::unhex("7575"), {}, st});
+        W.push_back({"initial stack of " + std::to_string(n) + " items, script NOP", sv, 0, ref::unhex("61"), {}, st});
+    }
     // the 520-byte element limit applies to every push the interpreter reads, executed or not (the limit check precedes the
     // fExec test); a scriptPubKey reaches the interpreter without the parse-time screen applied to command-line scripts
     for (size_t n : {519, 520, 521, 522}) {
@@ -122,6 +129,7 @@ static std::vector<Whole> c10_wholes() {
 // reference outcome of a multi-phase legacy session as the debugger stages it (scriptSig, scriptPubKey, P2SH redeem script)
 static ref::Err ref_phases(const Whole& w, std::vector<bytes>& stack) {
     stack = w.stack;
+    if (w.sv == ref::SigVer::TAPSCRIPT && stack.size() > ref::MAX_STACK) return ref::Err::STACK_SIZE;   // BIP342 initial stack limit
     ref::Err e = ref::eval_script(stack, w.script, w.flags, w.sv, nullptr);
     if (e != ref::Err::OK || w.successor.empty()) return e;
     std::vector<bytes> copy = stack;
